@@ -83,7 +83,7 @@ def _finite(rec, name, arrs, mech):
 def gen_cases(tier, seed):
     cases = []
     npw = 6 if tier == "quick" else 40
-    layers = ["slplan", "exponent", "normalizer", "maps", "baselines", "model", "evalxc", "nldfplan"]
+    layers = ["slplan", "exponent", "normalizer", "maps", "baselines", "model", "evalxc", "nldfplan", "splineclip"]
     i = 0
     for rep in range(npw):
         for lay in layers:
@@ -422,6 +422,15 @@ def _pw_nldfplan(case, rec, rng):
     _finite(rec, "nldfplan.func", [fn[0]] + list(fn[1]), "NLDFPlan.get_function_to_convolve")
     rec.nontrivial("nldfplan|%s|%s" % (fam, cfg["plan_type"]))
     rec.set_sample({"layer": "nldfplan", "cfg": cfg, "npoints": int(rho.shape[1])})
+
+
+def _pw_splineclip(case, rec, rng):
+    """Spline plans that do not raise above alpha_max (raise_large_expnt_error=False / use_smooth_expnt_cutoff=True, as
+    the plane-wave interface uses them): extreme exponents must give the clipped, finite coefficients - no spurious
+    contribution from a sentinel table row - and indices inside the table."""
+    from vlib import planprobe
+    cfgs = [planprobe.probe(rec, rng, tagprefix="splineclip") for _ in range(6)]
+    rec.set_sample({"layer": "splineclip", "configs": cfgs})
 
 
 # ---------------------------------------------------------------------------------------------------------- e2e
